@@ -7,7 +7,14 @@
      word  ::= one or more characters that are no blank, break, NUL, flow indicator and none of the
              indicators  : # - ? * & ! | > % @ ` nor a quote (the list [special] below)
 
-   One separator layout (", " and ": ", nothing after an opening or before a closing bracket); arbitrary nesting. *)
+   One separator layout (", " and ": ", nothing after an opening or before a closing bracket); arbitrary nesting.
+
+   One side condition, YAML 1.2.2 section 7.4.2 (productions [152] ns-flow-pair-yaml-key-entry / [154]
+   ns-s-implicit-yaml-key: for the implicit key of a single pair inside a flow SEQUENCE the ':' indicator must appear at
+   most 1024 Unicode characters beyond the start of the key, and the key is restricted to a single line): the key  word  of
+   an entry  word :_ node  of  [ entries ]  has at most 1024 characters ([key_ok]).  The keys of  { pairs }  (production
+   [144] ns-flow-map-implicit-entry) are NOT limited.  [fgram] is the grammar without the side condition, [fwf] the
+   grammar with it. *)
 From Coq Require Import List NArith Bool.
 Import ListNotations.
 Require Import Parser CharTraits TokenGrammar.
@@ -23,11 +30,24 @@ Definition special : list N := [58; 35; 45; 63; 42; 38; 33; 124; 62; 39; 34; 37;
 Definition wch (c : N) : bool := negb (is_blank_or_breakz c) && negb (is_flow c) && negb (existsb (N.eqb c) special).
 Definition word_ok (w : str) : bool := match w with [] => false | _ => forallb wch w end.
 
+(* the limit of an implicit key of a flow-sequence single pair (YAML 1.2.2, 7.4.2) *)
+Definition key_max : N := 1024.
+Definition key_short (k : str) : bool := N.of_nat (length k) <=? key_max.
+Definition key_ok (k : str) : bool := word_ok k && key_short k.
+
 Fixpoint fwf (f : fnode) : bool :=
   match f with
   | FW w => word_ok w
-  | FS es => forallb (fun e => match fst e with Some k => word_ok k | None => true end && fwf (snd e)) es
+  | FS es => forallb (fun e => match fst e with Some k => key_ok k | None => true end && fwf (snd e)) es
   | FM ps => forallb (fun p => word_ok (fst p) && fwf (snd p)) ps
+  end.
+
+(* the grammar alone (no limit on the keys of single pairs); fwf f = fgram f && "every single-pair key is short" *)
+Fixpoint fgram (f : fnode) : bool :=
+  match f with
+  | FW w => word_ok w
+  | FS es => forallb (fun e => match fst e with Some k => word_ok k | None => true end && fgram (snd e)) es
+  | FM ps => forallb (fun p => word_ok (fst p) && fgram (snd p)) ps
   end.
 
 Fixpoint depth (f : fnode) : nat :=
